@@ -340,6 +340,56 @@ func init() {
 		return vx.RunSched(c, sc, nil)
 	}})
 
+	// a write fails on one connection; afterwards writers on two other connections of the same process
+	// write at the same time (their Writes stall on back-pressure, so they overlap): every record on
+	// either wire is exactly one of that connection's messages
+	vx.Register(&vx.Scenario{Name: "tls.writefault2", Prop: "C05", Run: func(c *vx.Ctx) *vx.Report {
+		sc := &vrt.Scenario{
+			Opt:      vrt.Options{Delay: c.P("delay", "0") == "1"},
+			Classify: func(r *vrt.Result) string { return map[bool]string{true: "no-deadlock"}[r.Status == vrt.Deadlock] },
+			Main: func() {
+				dead := NewTLSConn(&faultWriteConn{failAt: 0})
+				if _, err := dead.Write(c05Msg(9, 30)); err == nil {
+					vrt.Fail("harness", "the failing write reported success")
+				}
+				n := vnet.New()
+				var wg sync.WaitGroup
+				for i := 0; i < 2; i++ {
+					i := i
+					a, b := n.Pair(fmt.Sprintf("w%d", i), false)
+					a.SetWriteLimit(1)
+					w, r := NewTLSConn(a), NewTLSConn(b)
+					wg.Add(2)
+					vrt.Go(fmt.Sprintf("writer%d", i), func() {
+						defer wg.Done()
+						for k := 0; k < 2; k++ {
+							m := c05Msg(i, 6+k)
+							m[0] = byte(i<<4 | k)
+							if _, err := w.Write(m); err != nil {
+								vrt.Fail("no-error", "Write: %v", err)
+							}
+						}
+					})
+					vrt.Go(fmt.Sprintf("reader%d", i), func() {
+						defer wg.Done()
+						buf := make([]byte, 64)
+						for k := 0; k < 2; k++ {
+							got, err := r.Read(buf)
+							want := c05Msg(i, 6+k)
+							want[0] = byte(i<<4 | k)
+							if err != nil || !bytes.Equal(buf[:got], want) {
+								vrt.Fail("one-write-one-read", "connection %d, message %d: read % x, %v; written % x (an earlier write on another connection had failed)", i, k, buf[:got], err, want)
+							}
+						}
+					})
+				}
+				wg.Wait()
+				vrt.Observe("ok")
+			},
+		}
+		return vx.RunSched(c, sc, nil)
+	}})
+
 	// WebSocketConn: messages of several sizes through a gorilla connection pair established over an
 	// in-memory pipe, the byte stream cut at every position; and concurrent writers
 	vx.Register(&vx.Scenario{Name: "ws.segment", Prop: "C05", Run: func(c *vx.Ctx) *vx.Report {
@@ -509,6 +559,9 @@ func init() {
 			{Scenario: "tls.writers", Params: vx.P("writers", "2", "per", "1", "seg", "1"), Bound: 2, BudgetS: 100, Weight: 7},
 			{Scenario: "ws.writers", Params: vx.P("writers", "2", "per", "1"), Bound: -1, BudgetS: 100, Weight: 6},
 			{Scenario: "ws.writers", Params: vx.P("writers", "2", "per", "2"), Bound: 2, BudgetS: 100, Weight: 7},
+			{Scenario: "ws.writers", Params: vx.P("writers", "3", "per", "1"), Bound: 2, BudgetS: 100, Weight: 7},
+			{Scenario: "tls.writefault2", Params: vx.P("pool", "recycle"), Bound: 2, BudgetS: 100, Weight: 5},
+			{Scenario: "tls.writefault2", Bound: 2, BudgetS: 100, Weight: 5},
 			{Scenario: "tls.writefault", Params: vx.P("msgs", "3"), Bound: 0, BudgetS: 100, Weight: 2},
 			{Scenario: "mux.cutrecord", Params: vx.P("frames", "3", "plen", "7"), Bound: 0, BudgetS: 100, Weight: 2},
 			{Scenario: "hs.serverfirst", Params: vx.P("browser", "firefox", "seg", "2"), Bound: 2, BudgetS: 100, Weight: 6},
